@@ -2,6 +2,7 @@ import CpModel.Proto
 import CpModel.UrlEnc
 import CpModel.UrlEncReq
 import CpModel.UrlEncBind
+import CpModel.Gen.C03Tables
 /-!
   Driver for C03 (query-string / form parameters).  One case per line.
 
@@ -172,16 +173,16 @@ def step (line : String) : String :=
     | none => "bad-op"
   | ["resp", sig, nargs, late, uri, enc, path, qs, pb, len, procs, ct, decl, conf, body, flds] =>
     match parseSig sig, nargs.toNat?, parseLate late, parseReqX uri enc path qs pb len procs ct decl conf body flds with
-    | some s, some n, some l, some r => showOutcome (respond r s n l)
+    | some s, some n, some l, some r => showOutcome (respond Gen.C03.specChecksBoundArg r s n l)
     | _, _, _, _ => "bad-op"
   | ["bind", sig, nargs, kwargs] =>
     match parseSig sig, nargs.toNat?, parseFlagged kwargs with
     | some s, some n, some kw =>
       let ok := pyCallOk s n (kw.map (·.1))
-      let spec := match specCheck s n kw with
+      let spec := match specCheck Gen.C03.specChecksBoundArg s n kw with
         | some c => toString c
         | none => "N"
-      let dec := match bindDecision s n kw with
+      let dec := match bindDecision Gen.C03.specChecksBoundArg s n kw with
         | .call => "C"
         | .status c => toString c
       "ok=" ++ (if ok then "1" else "0") ++ " spec=" ++ spec ++ " dec=" ++ dec
